@@ -55,12 +55,14 @@ Definition unigen_lines (nv : Z) (ss : list Z) (cls : cnf) : file :=
      end
   ++ str_lines cls ++ [[]].
 
-(** [CNF.__init__]: [_num_vars] = number of DISTINCT variables of the clauses
-    (not the largest one).  This is what the header declares for every CNF
-    built by a constructor call, in particular the result of
-    [combine_cnf_with_requests] ([fresh_cnf + initial_cnf] builds a new CNF). *)
+(** [CNF.__init__]: [_num_vars = max((abs(int(var)) for clause ... for var ...),
+    default=0)], the highest variable index in use.  (The pinned tree counted
+    DISTINCT variables; repaired in /repo by commit 1334ca3.)  This is what the
+    header declares for every CNF built by a constructor call, in particular
+    the result of [combine_cnf_with_requests] ([fresh_cnf + initial_cnf] builds
+    a new CNF). *)
 Definition cnf_num_vars (cls : cnf) : Z :=
-  Z.of_nat (length (nodup Z.eq_dec (map Z.abs (concat cls)))).
+  fold_right Z.max 0 (map Z.abs (concat cls)).
 
 (** [save_cnf(filename, cnf, fresh, support)]: [fresh] is ignored. *)
 Definition save_cnf_lines (cls : cnf) (support : option Z) : file :=
